@@ -201,11 +201,22 @@ class Behavior(_IModel):
         # the local problem collapses to one scalar when the surface is quadratic and nothing
         # else evolves; the decomposition it runs in is built here, once, not per Gauss point
         self.solver = solver
-        self.__eigen = (
-            _spectral.Build(*elastic.Get_sqrt_C_S(), yieldSurface.P)
-            if self.__Is_reducible()
-            else None
-        )
+        self.__eigen = None
+        self.__eigen_C = None
+        self.__Update_eigen()
+
+    def __Update_eigen(self) -> None:
+        """(Re)builds the spectral decomposition when the elastic law it was built from changed."""
+        if not self.__Is_reducible():
+            self.__eigen = None
+            self.__eigen_C = None
+            return
+        C = np.asarray(self.C)
+        if self.__eigen is None or not np.array_equal(C, self.__eigen_C):
+            self.__eigen = _spectral.Build(
+                *self.__elastic.Get_sqrt_C_S(), self.__yield.P
+            )
+            self.__eigen_C = C.copy()
 
     def __Is_reducible(self) -> bool:
         """Whether the spectral return applies: quadratic surface, homogeneous C, nothing else."""
@@ -425,6 +436,8 @@ class Behavior(_IModel):
                 zOld_e_pg,
                 np.ones((Ne, nPg), dtype=bool),
             )
+        # the elastic law may have been modified since the decomposition was built
+        self.__Update_eigen()
         if self.__eigen is not None:
             return self.__Spectral(eps6_e_pg, zOld_e_pg, C6_e_pg, dt)
         return self.__Flow(eps6_e_pg, zOld_e_pg, C6_e_pg, dt)
